@@ -1,28 +1,99 @@
-(* Lock-step replay of a once_mix trace against the extracted OnceModel (sites of once.c only). *)
+(* Lock-step replay of a once_mix trace against the extracted OnceModel.
+   Consumed in lock-step: every atomic site of once.c (site, value read / written, CAS outcome), the notes
+   `f-begin <tid> <idx>` / `f-end <tid> <idx>` the scenario's once-function writes on entry and exit (so the ORDER
+   CAS < f-begin < f-end < store of 2 < every load that lets a call return is checked on every trace).
+   The model's abstract steps on once_mu / once_cv (lock, unlock, broadcast, timed cv wait) have no event of once.c:
+   an ACQUISITION is taken just before the thread's next once.c event (by then the implementation holds the lock; the
+   model's lock must be free: mutual exclusion of the model is checked against the order of the real execution), a
+   RELEASE right after the thread's previous once.c event (so the model holds a lock only while the implementation does).
+   Per thread and per segment between two of its once.c events the replayer also checks that the implementation touched
+   mu.c / cv.c if and only if the model made a lock / condition-variable step (a spinning call, and a call on a once
+   that is already done, make none). *)
 open Rcommon
 open OnceModel
 let () =
   load_sites Sys.argv.(2);
   let ic = open_in Sys.argv.(1) in
-  let w = ref (OnceModel.init (Stdlib.List.init 12 (fun _ -> []))) in
+  let nthr = 12 in
+  (* NSYNC_ONCE_SYNC_: (address / sizeof (nsync_once)) % 64; the scenario's objects are elements of one array, the index
+     is the element number, so two indices share a slot iff they are congruent modulo 64 *)
+  let env = { slot = (fun o -> nat_of_int (int_of_nat o mod 64)); fterm = (fun _ -> true); lockable = (fun _ -> true) } in
+  let w = ref (OnceModel.init env (Stdlib.List.init nthr (fun _ -> []))) in
   let steps = ref 0 and skipped = ref 0 in
+  let real_lock = Array.make nthr 0 and model_lock = Array.make nthr 0 in
+  let last_raw = ref "" in
+  let fail msg = raise (Mismatch (Printf.sprintf "%s (at trace line: %s)" msg !last_raw)) in
+  let pc_of t = (OnceModel.get !w (nat_of_int t)).pc in
+  let is_lock_ev = function EvLock _ | EvUnlock _ | EvBlocked _ | EvBroadcast _ | EvCvRelease _ | EvCvEnd _ -> true | _ -> false in
+  let do_step t =
+    let (w', ev) = OnceModel.step !w (nat_of_int t) in
+    w := w'; incr steps;
+    if is_lock_ev ev then model_lock.(t) <- model_lock.(t) + 1;
+    ev in
+  let abstract_step t what =
+    match do_step t with
+    | EvBlocked s -> fail (Printf.sprintf "%s: the implementation has passed nsync_mu_lock on once_mu, in the model slot %d is held by another thread" what (int_of_nat s))
+    | EvLock _ -> cover "lock" | EvUnlock _ -> cover "unlock" | EvBroadcast _ -> cover "broadcast"
+    | EvCvRelease _ -> cover "cv-release" | EvCvEnd _ -> cover "cv-end" | EvSpin -> cover "spin"
+    | _ -> fail (what ^ ": unexpected model event at an abstract step") in
+  (* releases, taken as early as possible *)
+  let rec eager t =
+    match pc_of t with
+    | OWinUnlock _ | OCvEnter _ | OFinalUnlock _ -> abstract_step t "release"; eager t
+    | _ -> () in
+  (* everything abstract that stands between the thread and its next concrete step *)
+  let rec catch_up t =
+    match pc_of t with
+    | OWinUnlock _ | OCvEnter _ | OFinalUnlock _ | OLock (_, _) | OWinLock _ | OCvReacq _ | OCvWait _ | OSpin _ | OBroadcast _ ->
+      abstract_step t "catch-up"; catch_up t
+    | _ -> () in
+  let segment_check t =
+    if (real_lock.(t) > 0) <> (model_lock.(t) > 0) then
+      fail (Printf.sprintf "thread %d: the implementation made %d mu.c/cv.c accesses since its previous once.c site, the model %d lock/cv steps"
+              t real_lock.(t) model_lock.(t));
+    if model_lock.(t) > 0 then cover "segment-locked" else cover "segment-lockfree";
+    real_lock.(t) <- 0; model_lock.(t) <- 0 in
   (try
      while true do
        let line = input_line ic in
-       if String.length line > 2 && line.[0] = 'E' then
+       last_raw := line;
+       if String.length line > 2 && line.[0] = 'N' then begin
+         match String.split_on_char ' ' line with
+         | _ :: _ :: "f-begin" :: t :: idx :: _ ->
+           let t = int_of_string t and idx = int_of_string idx in
+           catch_up t;
+           (match do_step t with
+            | EvFBegin o -> if int_of_nat o <> idx then fail "f-begin: the model runs the function of another object"
+            | _ -> fail "the implementation enters the once-function, the model is elsewhere");
+           cover "f-begin"
+         | _ :: _ :: "f-end" :: t :: idx :: _ ->
+           let t = int_of_string t and idx = int_of_string idx in
+           (match pc_of t with OFRun (_, _) -> () | _ -> fail "the implementation leaves the once-function, the model is not inside it");
+           (match do_step t with
+            | EvFEnd o -> if int_of_nat o <> idx then fail "f-end: the model runs the function of another object"
+            | _ -> fail "the implementation leaves the once-function, the model is elsewhere");
+           cover "f-end"
+         | _ -> ()
+       end else if String.length line > 2 && line.[0] = 'E' then
          match parse_event line with
          | Some e when e.file = "once.c" ->
-           let fail msg = raise (Mismatch (Printf.sprintf "%s (at trace event: %s)" msg e.raw)) in
+           let t = e.tid in
            let (fn, ord) = try Hashtbl.find sites (e.file, e.line) with Not_found -> fail "trace site not in Gen/Sites" in
            let o = obj_offset e.obj / 4 in
            let key = if fn = "nsync_run_once_impl" then 10 + ord else 1 in
+           eager t;
            if key = 1 then begin
+             (match pc_of t with OIdle -> () | _ -> fail "the implementation begins a call, the model's previous call is not complete");
              let spin = (try ignore (Str.search_forward (Str.regexp_string "_spin") fn 0); true with Not_found -> false) in
-             w := OnceReplay.push_call !w (nat_of_int e.tid) (nat_of_int o) spin
+             w := OnceReplay.push_call !w (nat_of_int t) (nat_of_int o) spin
            end;
+           catch_up t;
+           segment_check t;
            cover (string_of_int key);
-           let (w', ev) = OnceModel.step !w (nat_of_int e.tid) in
-           w := w'; incr steps;
+           (match pc_of t with
+            | OFBegin (_, _) | OFRun (_, _) -> fail "the implementation is at a site of once.c, the model is at / inside the call of the once-function"
+            | _ -> ());
+           let ev = do_step t in
            (match e.kind, ev with
             | "load", EvLoad (s, v) ->
               if int_of_z s <> key then fail (Printf.sprintf "model at site %d, implementation at %d" (int_of_z s) key);
@@ -34,11 +105,25 @@ let () =
             | "store", EvStore (s, v) ->
               if int_of_z s <> key then fail "store site differs";
               if int_of_z v <> e.b then fail "stored value differs"
-            | _, _ -> fail "event kinds differ")
+            | _, _ -> fail "event kinds differ");
+           eager t
+         | Some e when e.file = "mu.c" || e.file = "cv.c" ->
+           if e.tid >= 0 && e.tid < nthr then real_lock.(e.tid) <- real_lock.(e.tid) + 1;
+           incr skipped
+         | Some e when e.kind = "end" ->
+           let t = e.tid in
+           eager t;
+           (match pc_of t with OIdle -> () | _ -> fail "the thread ends, the model's call is not complete");
+           segment_check t
          | Some _ -> incr skipped
          | None -> ()
      done
    with End_of_file -> () | Mismatch m -> Printf.printf "MISMATCH %s\n" m; exit 1);
   (* the model's own verdict on the replayed execution *)
   if int_of_z (OnceModel.early !w) <> 0 then begin Printf.printf "MISMATCH model counts an early return\n"; exit 1 end;
+  for t = 0 to nthr - 1 do
+    match (OnceModel.get !w (nat_of_int t)).pc with
+    | OIdle -> ()
+    | _ -> Printf.printf "MISMATCH the trace ends, thread %d of the model is inside a call\n" t; exit 1
+  done;
   finish !steps !skipped
